@@ -889,8 +889,11 @@ def check_section_grammar(chk, tu, rule='R08.8', only=None):
             out[k] = v
         return out
 
-    def pre_counts(types=0, functions=0):
+    def pre_counts(types=0, functions=0, func_imports=0):
         def pre(mod, it):
+            if func_imports:
+                mod['functionImports'] = {'length': func_imports, 'capacity': func_imports,
+                                          'imports': Ptr([{'module': 'env', 'name': 'imp%d' % k_, 'functionTypeIndex': 0} for k_ in range(func_imports)], 0)}
             mod['functionTypes'] = {'functionTypes': Ptr([it.zero_init('struct WasmFunctionType') for _ in range(types)], 0) if types else 0, 'count': types}
             mod['functions'] = {'functions': Ptr([it.zero_init('struct WasmFunction') for _ in range(functions)], 0) if functions else 0, 'count': functions}
         return pre
@@ -940,6 +943,12 @@ def check_section_grammar(chk, tu, rule='R08.8', only=None):
          lambda m: [m['exports']['count']] + [pick(e, ['name', 'kind', 'index']) for e in arr(m['exports']['exports'], m['exports']['count']) or []] +
                    [f.get('exportName') for f in arr(m['functions']['functions'], 2) or []],
          [3, {'name': 'a', 'kind': 0, 'index': 1}, {'name': 'mem', 'kind': 2, 'index': 0}, {'name': 'g', 'kind': 3, 'index': 0}, 0, 'a']),
+        # the export of the first defined function (index = number of function imports, here 0 and 2), of a later one, and of an import
+        ('wasmReadExportSection', [U(2), N('b'), B(0), U(0), N('a'), B(0), U(1)], pre_counts(types=1, functions=2),
+         lambda m: [m['exports']['count']] + [f.get('exportName') for f in arr(m['functions']['functions'], 2) or []], [2, 'b', 'a']),
+        ('wasmReadExportSection', [U(3), N('first'), B(0), U(2), N('imp'), B(0), U(1), N('last'), B(0), U(4)],
+         pre_counts(types=1, functions=3, func_imports=2),
+         lambda m: [m['exports']['count']] + [f.get('exportName') for f in arr(m['functions']['functions'], 3) or []], [3, 'first', 0, 'last']),
         ('wasmReadStartSection', [U(1)], pre_counts(types=1, functions=2),
          lambda m: [m['startFunctionIndex'], m['hasStartFunction']], [1, 1]),
         ('wasmReadElementSection', [U(2), U(0), CE, U(3), U(2), U(0), U(1), U(0), CE, U(0)], pre_counts(types=1, functions=3),
